@@ -93,6 +93,7 @@ type IV struct {
 	Assume map[string]Itv // term string -> interval
 	// CallSummary gives the interval of a call result for callees with a verified summary.
 	CallSummary func(c *ssa.Call, arg func(ssa.Value) Itv) (Itv, bool)
+	inCallee    map[*ssa.Function]bool
 }
 
 func NewIV(w *World, tb *TB) *IV {
@@ -385,6 +386,9 @@ func (iv *IV) structural(v ssa.Value, b *ssa.BasicBlock, depth int) Itv {
 				return r
 			}
 		}
+		if r, ok := iv.calleeResult(v, tr, depth); ok {
+			return r
+		}
 		if bu, ok := v.Call.Value.(*ssa.Builtin); ok && (bu.Name() == "len" || bu.Name() == "cap") {
 			lo, hi := iv.lenBounds(v.Call.Args[0], b, depth)
 			r := Itv{bi(0), tr.Hi}
@@ -428,6 +432,44 @@ func (iv *IV) structural(v ssa.Value, b *ssa.BasicBlock, depth int) Itv {
 		return iv.loadItv(v, tr, b, depth)
 	}
 	return tr
+}
+
+// calleeResult: the result interval of a call to a module function with one integer result is the
+// hull of the intervals of its return sites (context-insensitive: parameters range over their types;
+// the conditions that dominate each return site apply). Recursive callees give no information.
+func (iv *IV) calleeResult(c *ssa.Call, tr Itv, depth int) (Itv, bool) {
+	callee := c.Call.StaticCallee()
+	if callee == nil || callee.Blocks == nil || !iv.W.InModule(callee) || depth > 6 {
+		return tr, false
+	}
+	if callee.Signature.Results().Len() != 1 {
+		return tr, false
+	}
+	if _, _, isInt := intInfo(callee.Signature.Results().At(0).Type(), iv.W); !isInt {
+		return tr, false
+	}
+	if iv.inCallee == nil {
+		iv.inCallee = map[*ssa.Function]bool{}
+	}
+	if iv.inCallee[callee] {
+		return tr, false
+	}
+	iv.inCallee[callee] = true
+	defer delete(iv.inCallee, callee)
+	var hull *Itv
+	for _, r := range Returns(callee) {
+		it := iv.with(r.Results[0], r.Block(), CondsAt(r.Block()), depth+1)
+		if hull == nil {
+			h := it
+			hull = &h
+			continue
+		}
+		hull.Lo, hull.Hi = minLo(hull.Lo, it.Lo), maxHi(hull.Hi, it.Hi)
+	}
+	if hull == nil {
+		return tr, false
+	}
+	return *hull, true
 }
 
 func minLo(a, b *big.Int) *big.Int {
